@@ -136,7 +136,7 @@ fn run_worker(args: &WorkerArgs) -> ShardStats {
     let runs = args.get_u64("runs", default_runs);
     match args.prop.as_str() {
         "C14" => {
-            for p in ["mutated_while_shared", "callbacks", "long_runs", "max_len_ge_64", "clone_family_ge_3"] {
+            for p in ["mutated_while_shared", "callbacks", "iter_mut_writes", "get_mut_writes", "entry_occupied", "entry_vacant", "long_runs", "max_len_ge_64", "clone_family_ge_3"] {
                 stats.declare_probe(p);
             }
             stats.declare_fault("handle_drop");
@@ -179,6 +179,10 @@ fn run_worker(args: &WorkerArgs) -> ShardStats {
                         stats.steps += info.steps;
                         stats.probe_n("mutated_while_shared", info.mutated_while_shared);
                         stats.probe_n("callbacks", info.callbacks);
+                        stats.probe_n("iter_mut_writes", info.iter_mut_writes);
+                        stats.probe_n("get_mut_writes", info.get_mut_writes);
+                        stats.probe_n("entry_occupied", info.entry_occupied);
+                        stats.probe_n("entry_vacant", info.entry_vacant);
                         if info.max_len >= 64 {
                             stats.probe("max_len_ge_64");
                         }
